@@ -1,6 +1,6 @@
 (* The running checksum of a fragment sequence, in closed form. *)
 From Coq Require Import ZArith List Bool Lia.
-From Verif Require Import Base.Wrap Base.Bytes Model.Crc Model.Frag Spec.FragSpec Spec.FragOk Proofs.FragWP.
+From Verif Require Import Base.Wrap Base.Bytes Model.Crc Model.Frag Spec.FragSpec Spec.FragOk Proofs.FragWP Proofs.CrcP.
 Import ListNotations.
 Local Open Scope Z_scope.
 
@@ -34,3 +34,13 @@ Qed.
 Lemma ck_sum_crc kind v bs : kind = 1 \/ kind = 3 ->
   ck_sum (ck_add (mkCk kind v) bs) = be 4 (crc32_update (if kind =? 1 then poly_ieee else poly_castagnoli) v bs).
 Proof. intros [-> | ->]; reflexivity. Qed.
+
+Lemma recv_type_change : forall st c f rest, rs_err st = 0 -> rs_ck st = Some c ->
+  ck_typecode c <> f_ctype f ->
+  exists st2, r_recv (rs_with_in st (f :: rest)) = Some (7, st2) /\ rs_err st2 = 7.
+Proof.
+  intros st c f rest He Hc Hn. unfold r_recv, rs_with_in. cbn [rs_err rs_in rs_ck rs_got rs_rel rs_state rs_rem rs_cur rs_more rs_fin].
+  rewrite He, Hc. cbn [Z.eqb negb].
+  assert (E : (ck_typecode c =? f_ctype f) = false) by (apply Z.eqb_neq; exact Hn).
+  rewrite E. cbn [negb andb]. eexists. split; reflexivity.
+Qed.
